@@ -122,6 +122,7 @@ type Enc struct {
 	compSort  map[string]string // state component -> sort
 	strConsts map[string]Term
 	strOrder  []string
+	callsNoReturn bool // the function calls a noreturn callee (os.Exit): its own returns may legitimately be unreachable
 	tidsUsed  map[int]bool
 	ifacesUsed map[string]*types.Interface
 	vals      map[ssa.Value]Val
